@@ -673,6 +673,13 @@ func (m *collection) appendChildLLSnapshot(dst *segmentStack,
 		var childSnap Snapshot
 		if src != nil {
 			childSnap, _ = src.ChildCollectionSnapshot(cName)
+			if incarNum, ok := snapshotIncarNum(childSnap); ok &&
+				incarNum != childCollection.incarNum {
+				// The lower level still has a prior incarnation of this
+				// child collection, which was deleted & recreated since.
+				childSnap.Close()
+				childSnap = nil
+			}
 		}
 
 		dst.childSegStacks[cName] =
@@ -680,6 +687,22 @@ func (m *collection) appendChildLLSnapshot(dst *segmentStack,
 	}
 
 	return dst
+}
+
+// snapshotIncarNum returns the incarnation number of a child snapshot
+// provided by a moss lower level (a store footer or a segment stack).
+func snapshotIncarNum(s Snapshot) (uint64, bool) {
+	switch x := s.(type) {
+	case *Footer:
+		if x != nil {
+			return x.incarNum, true
+		}
+	case *segmentStack:
+		if x != nil {
+			return x.incarNum, true
+		}
+	}
+	return 0, false
 }
 
 // appendChildStacks recursively appends child segment stacks.
